@@ -2,17 +2,18 @@
 // listeners get) is mounted on a loopback HTTP server; a gorilla client sends the bytes of an MQTT 3.1.1 session cut into
 // WebSocket messages as the case says and collects the bytes the broker sends back. Same protocol as lean/Driver/WsEcho.lean:
 //
-//	new             -> ok                  fresh WebSocket connection (the broker instance lives as long as the process)
+//	new [<mp>]      -> ok                  fresh WebSocket connection to the broker configured with max_packet_size <mp>
+//	                                       (default config if absent); one broker per configuration per process
 //	msg b <hex|->   -> ok                  client sends one binary message
 //	msg t <hex|->   -> ok                  client sends one text message
 //	recv <n>        -> <hex of n bytes>    next n bytes of the concatenated binary messages from the broker,
-//	                   | <hex|->+timeout | <hex|->+closed   if fewer arrive
+//	                   | err-timeout:<hex|-> | closed:<hex|->   if fewer arrive (what did arrive is shown)
+//	quiet           -> quiet | <hex> | closed:<hex|->        nothing more arrives within a short while
 package main
 
 import (
 	"context"
 	"encoding/hex"
-	"fmt"
 	"net/http/httptest"
 	"strings"
 	"time"
@@ -28,7 +29,8 @@ import (
 	"go.uber.org/zap"
 )
 
-const wait = 1500 * time.Millisecond
+const wait = 8 * time.Second // generous: the machine may be heavily loaded; a timeout is reported as err-… and retried
+const quietWait = 300 * time.Millisecond
 
 type broker interface {
 	server.Server
@@ -42,27 +44,43 @@ type frame struct {
 	err  error
 }
 
+type inst struct {
+	srv broker
+	ts  *httptest.Server
+}
+
 type echoDrv struct {
-	srv    broker
-	ts     *httptest.Server
+	insts  map[int]*inst
 	client *websocket.Conn
 	in     chan frame
 	left   []byte
 	dead   bool
 }
 
-func (d *echoDrv) start() error {
+// get returns the broker configured with max_packet_size mp (0 = default configuration), starting it on first use.
+func (d *echoDrv) get(mp int) (*inst, error) {
+	if in, ok := d.insts[mp]; ok {
+		return in, nil
+	}
 	cfg := config.DefaultConfig()
 	cfg.Listeners = nil
 	cfg.API = config.API{}
 	cfg.Log.Level = "error"
-	d.srv = broker(server.New(server.WithConfig(cfg), server.WithTCPListener(memnet.Listen()), server.WithLogger(zap.NewNop())))
-	if err := d.srv.Init(); err != nil {
-		return err
+	if mp > 0 {
+		cfg.MQTT.MaxPacketSize = uint32(mp)
 	}
-	go d.srv.Run()
-	d.ts = httptest.NewServer(server.VerifWsHandler(d.srv))
-	return nil
+	if err := cfg.MQTT.Validate(); err != nil {
+		return nil, err
+	}
+	in := &inst{}
+	in.srv = broker(server.New(server.WithConfig(cfg), server.WithTCPListener(memnet.Listen()), server.WithLogger(zap.NewNop())))
+	if err := in.srv.Init(); err != nil {
+		return nil, err
+	}
+	go in.srv.Run()
+	in.ts = httptest.NewServer(server.VerifWsHandler(in.srv))
+	d.insts[mp] = in
+	return in, nil
 }
 
 func unhex(s string) ([]byte, bool) {
@@ -86,12 +104,21 @@ func (d *echoDrv) Step(line string) string {
 		return "bad-op"
 	}
 	switch {
-	case f[0] == "new" && len(f) == 1:
+	case f[0] == "new" && len(f) <= 2:
 		if d.client != nil {
 			d.client.Close()
 		}
-		dialer := websocket.Dialer{Subprotocols: []string{"mqtt"}, HandshakeTimeout: 3 * time.Second}
-		c, _, err := dialer.Dial("ws"+strings.TrimPrefix(d.ts.URL, "http")+"/", nil)
+		mp := 0
+		if len(f) == 2 {
+			mp = drv.Atoi(f[1])
+		}
+		br, err := d.get(mp)
+		if err != nil {
+			d.client = nil
+			return "err-broker"
+		}
+		dialer := websocket.Dialer{Subprotocols: []string{"mqtt"}, HandshakeTimeout: wait}
+		c, _, err := dialer.Dial("ws"+strings.TrimPrefix(br.ts.URL, "http")+"/", nil)
 		if err != nil {
 			d.client = nil
 			return "err-dial"
@@ -139,34 +166,57 @@ func (d *echoDrv) Step(line string) string {
 					d.left = append(d.left, fr.data...)
 				}
 			case <-deadline:
-				out := showHex(d.left) + "+timeout"
+				out := "err-timeout:" + showHex(d.left)
 				d.left = nil
 				return out
 			}
 		}
 		if len(d.left) < n {
-			out := showHex(d.left) + "+closed"
+			out := "closed:" + showHex(d.left)
 			d.left = nil
 			return out
 		}
 		out := showHex(d.left[:n])
 		d.left = d.left[n:]
 		return out
+	case f[0] == "quiet" && len(f) == 1:
+		deadline := time.After(quietWait)
+		for !d.dead {
+			select {
+			case fr := <-d.in:
+				if fr.err != nil {
+					d.dead = true
+				} else if fr.text {
+					return "text-frame"
+				} else {
+					d.left = append(d.left, fr.data...)
+				}
+				continue
+			case <-deadline:
+			}
+			break
+		}
+		out := "quiet"
+		if d.dead {
+			out = "closed:" + showHex(d.left)
+		} else if len(d.left) > 0 {
+			out = showHex(d.left)
+		}
+		d.left = nil
+		return out
 	}
 	return "bad-op"
 }
 
 func main() {
-	d := &echoDrv{}
-	if err := d.start(); err != nil {
-		fmt.Println("CRASH", err)
-		return
-	}
+	d := &echoDrv{insts: map[int]*inst{}}
 	defer func() {
-		ctx, cancel := context.WithTimeout(context.Background(), time.Second)
-		defer cancel()
-		_ = d.srv.Stop(ctx)
-		d.ts.Close()
+		for _, in := range d.insts {
+			ctx, cancel := context.WithTimeout(context.Background(), time.Second)
+			_ = in.srv.Stop(ctx)
+			cancel()
+			in.ts.Close()
+		}
 	}()
 	drv.Main(d)
 }
